@@ -317,6 +317,9 @@ func (c *Ctx) finish(runErr error) int {
 		obs["distinct_"+k] = len(m)
 	}
 	cov["observed"] = obs
+	if rf := RequestFamilies(); len(rf) > 0 {
+		cov["request_families"] = rf
+	}
 	for k, v := range c.extra {
 		cov[k] = v
 	}
